@@ -25,6 +25,9 @@ Qed.
 Lemma names_eqb_refl l : names_eqb l l = true.
 Proof. induction l as [|x l IH]; [reflexivity|]. cbn. rewrite bytes_eqb_refl, IH. reflexivity. Qed.
 
+Lemma shapes_eqb_refl l : shapes_eqb l l = true.
+Proof. induction l as [|x l IH]; [reflexivity|]. cbn. rewrite bytes_eqb_refl, Z.eqb_refl, IH. reflexivity. Qed.
+
 Lemma existsb_false_notin x l : existsb (bytes_eqb x) l = false -> ~ In x l.
 Proof.
   intros H Hin. assert (existsb (bytes_eqb x) l = true); [|congruence].
@@ -133,7 +136,7 @@ Lemma exec_single cat s c cols : find_sym s cat = Some c ->
 Proof.
   intros Hc. unfold exec. rewrite hits_nodup by (constructor; [intros []|constructor]).
   unfold hits1. cbn [flat_map]. rewrite Hc. cbn [app assemble forallb snd].
-  rewrite names_eqb_refl. reflexivity.
+  rewrite shapes_eqb_refl. reflexivity.
 Qed.
 
 (** the multi-symbol response, restricted to one key, is that symbol's single response *)
@@ -157,7 +160,7 @@ Theorem multi_succeeds cat syms cols :
 Proof.
   intros Hc Hne. unfold exec, assemble, compat in *.
   destruct (hits cat syms cols) as [|[s0 c0] r]; [congruence|].
-  cbn [forallb snd]. rewrite names_eqb_refl. cbn. rewrite Hc. reflexivity.
+  cbn [forallb snd]. rewrite shapes_eqb_refl. cbn. rewrite Hc. reflexivity.
 Qed.
 
 (** "*" : every catalogued symbol is answered as by its own query *)
